@@ -18,11 +18,16 @@ Proof.
     + pose proof (split_str_nonempty sep f [] rest) as Hn. destruct (split_str f sep [] rest) as [|b t]; [congruence|]. eauto.
     + cbn [contains] in Hc. unfold starts_with in Hc. rewrite E in Hc. cbn [orb] in Hc. apply IH; [simpl in Hf; lia|exact Hc].
 Qed.
+Lemma span_eq_rest : forall p, contains s_eq p = true -> snd (span (fun c => negb (ceq c 61%N)) p) <> [].
+Proof.
+  induction p as [|c r IH]; intro H; [discriminate|]. cbn [span]. destruct (ceq c 61%N) eqn:E; cbn [negb]; [discriminate|].
+  destruct (span (fun c0 => negb (ceq c0 61%N)) r) as [a b] eqn:Es. cbn [snd] in *. apply IH.
+  cbn [contains] in H. unfold starts_with, s_eq in H. cbn [prefix] in H. unfold ceq in *. rewrite N.eqb_sym in E. rewrite E in H. exact H.
+Qed.
 Theorem unpacking_never_fails p : parse_part p <> inr tt.
 Proof.
   unfold parse_part. destruct (contains s_eq p) eqn:E; [|discriminate].
-  destruct (split_str_two s_eq ltac:(discriminate) p (S (length p)) [] (le_n _) E) as (a & b & r & H).
-  unfold py_split. rewrite H. discriminate.
+  pose proof (span_eq_rest p E) as H. destruct (span (fun c => negb (ceq c 61%N)) p) as [k [|x v]]; [cbn [snd] in H; congruence|discriminate].
 Qed.
 Theorem parse_never_crashes raw : parse raw <> PCrash.
 Proof.
@@ -34,7 +39,7 @@ Proof.
   unfold parse. generalize (@nil (str * str)). induction (split_parts raw) as [|p ps IH]; intro acc; cbn [parse_parts].
   - split; [discriminate|intros (? & [] & _)].
   - pose proof (unpacking_never_fails p) as Hp. unfold parse_part in *. destruct (contains s_eq p) eqn:E.
-    + destruct (py_split s_eq p) as [|k [|v t]]; try congruence. rewrite IH. split.
+    + destruct (span (fun c => negb (ceq c 61%N)) p) as [k [|x v]]; try congruence. rewrite IH. split.
       * intros (q & Hq & Hc). exists q. split; [right; exact Hq|exact Hc].
       * intros (q & [Eq|Hq] & Hc); [subst q; congruence|]. exists q. split; assumption.
     + split; [intros _; exists p; split; [left; reflexivity|exact E]|reflexivity].
@@ -113,4 +118,15 @@ Proof.
   unfold process_header. rewrite Em. cbn [andb]. change (to_snake_case s_jr) with s_jr. rewrite Em. cbn [andb orb].
   change (contains COLON2 s_jr) with false. cbv iota. change (map py_strip (py_split [58%N] s_jr)) with [s_jr].
   cbn [removelast index_of]. change (to_snake_case s_jr) with s_jr. rewrite Ea, Em. reflexivity.
+Qed.
+
+(* the value of a parameter is everything after the FIRST "=" of its part (nothing is cut off at a second one) *)
+Theorem part_value_is_whole k v : nochar 61%N k = true ->
+  parse_part (k ++ 61%N :: v) =
+  inl (Some (py_strip (lower_ascii k), if mem (py_strip (lower_ascii k)) [s_label; s_value] then py_strip v else py_strip (lower_ascii v))).
+Proof.
+  intro Hk. unfold parse_part.
+  assert (Hc : contains s_eq (k ++ 61%N :: v) = true).
+  { clear Hk. induction k as [|c r IH]; [reflexivity|]. cbn [app contains]. rewrite IH. apply orb_true_r. }
+  rewrite Hc. rewrite (span_app (fun c => negb (ceq c 61%N)) k (61%N :: v) Hk) by reflexivity. reflexivity.
 Qed.
